@@ -67,10 +67,9 @@ fn materialize(seq: &[usize], alpha: &[Value]) -> Option<Vec<Value>> {
 
 fn queue_alphabet() -> Vec<Value> {
     let mut a = vec![];
-    for id in [1u64, 2, 3] { a.push(json!({"op":"push","order":{"type":"Standard","id":id,"price":100,"vis":5,"side":"Sell","ts":id}})); }
-    // orders with nothing displayed (a spent iceberg tranche, a zero-quantity order) are queued orders like any other
-    a.push(json!({"op":"push","order":{"type":"Iceberg","id":4,"price":100,"vis":0,"hid":7,"side":"Sell","ts":4}}));
-    a.push(json!({"op":"push","order":{"type":"Standard","id":5,"price":100,"vis":0,"side":"Buy","ts":5}}));
+    for id in [1u64, 2, 3] { a.push(json!({"op":"push","order":{"type":"Standard","id":id,"price":100,"vis":if id == 3 { 0 } else { 5 },"side":"Sell","ts":id}})); }
+    // (orders with nothing displayed, all order types and the text / JSON legs are covered by w-qzoo-all-types and legs_fuzz:
+    //  the history search keeps a small alphabet so that depth 7 stays within its budget, and runs without the legs)
     a.push(json!({"op":"pop"}));
     for id in [1u64, 2] { a.push(json!({"op":"remove","id":id})); }
     a.push(json!({"op":"find","id":1}));
@@ -165,7 +164,7 @@ fn run_queue(v: &Value, rep: &mut Report) -> Result<(), String> {
         'outer: loop {
             if t0.elapsed() > budget { break; }
             if let Some(ops) = materialize_queue(&idx, &alpha) {
-                let hist = json!({"kind":"queue_history","ops":ops});
+                let hist = json!({"kind":"queue_history","ops":ops,"legs":false});
                 *crate::CURRENT.lock().unwrap() = Some(hist.clone());
                 let mut r = Report::default();
                 if crate::queue_history::run(&hist, &mut r).is_ok() {
